@@ -83,6 +83,9 @@ def ref_presence(u: Universe, m: Msg, ref) -> Dict[str, bool]:
 
 
 def oracle(u: Universe, tc: TypeCase, aval: Dict[str, Any], route: str, tally: Tally) -> List[Fail]:
+    if route.endswith("@604"):
+        # the same type declared with PEP 604 / builtin-generic annotations (plugin option typing.310)
+        u, route = u.view604(), route[:-4]
     m = tc.msg
     cls = getattr(u.bp, m.name)
     fails: List[Fail] = []
@@ -182,15 +185,18 @@ def oracle_routed(u, tc, aval, route, tally):
     """Failures on the from_dict route are named json:<oracle> so that findings about
     the JSON decoder never mask the binary routes."""
     fails = oracle(u, tc, aval, route, tally)
-    if route == "from_dict":
+    if route.startswith("from_dict"):
         return [("json:" + n, d) for n, d in fails]
     return fails
 
 
 def routes_fn(tc, aval):
+    r = ROUTES
     if fresh_variant(tc.msg, aval):
-        return ROUTES + ("ctor_fresh", "setattr_fresh")
-    return ROUTES
+        r = r + ("ctor_fresh", "setattr_fresh")
+    if tc.tag in ("T1", "KS", "TN", "REC"):
+        r = r + ("fresh@604", "ctor@604", "setattr@604", "parse@604", "from_dict@604")
+    return r
 
 
 # ---------------------------------------------------------------------------
@@ -263,6 +269,7 @@ def nested_inplace(ctx: Ctx) -> int:
 
 def run(ctx: Ctx) -> None:
     u = get_universe(ctx.tier)
+    u.view604()  # built before the workers fork
     t = run_universe(ctx, u, oracle_routed, routes_fn)
     nested_cases = nested_inplace(ctx)
     ctx.coverage.update(
